@@ -97,3 +97,56 @@ Qed.
 End Chunk.
 Print Assumptions chunk_remap.
 Print Assumptions chunks_starts.
+
+(* ---- the other half of RemapOffset: an offset at or beyond the end of the old log (an index entry whose primary data no
+   longer exists) is NOT remapped - the entry is dropped, never mis-pointed - and an offset inside the log always is; the
+   new absolute offset (file * limit + local offset) decodes back to that file and local offset ---- *)
+Section Remap2.
+Variable slot : Type.
+Variable slen : slot -> N.
+Notation T := (total slot slen).
+Definition sum_sizes (l : list N) : N := fold_right N.add 0 l.
+
+Lemma remap_none_iff sizes : forall f p, remap sizes f p = None <-> sum_sizes sizes <= p.
+Proof.
+  induction sizes as [|sz r IH]; intros f p; cbn [remap sum_sizes fold_right].
+  - split; [lia|reflexivity].
+  - destruct (N.ltb_spec p sz) as [Hlt|Hge].
+    + split; [discriminate|]. fold (sum_sizes r). lia.
+    + rewrite IH. fold (sum_sizes r). lia.
+Qed.
+
+Lemma chunks_total mx l : forall cur, sum_sizes (map T (chunks slot slen mx l cur)) = T cur + T l.
+Proof.
+  induction l as [|s l IH]; intros cur; cbn [chunks].
+  - cbn [map sum_sizes fold_right]. unfold total at 3. cbn [total_from]. lia.
+  - cbv zeta. assert (E : T cur + T (s :: l) = T (cur ++ [s]) + T l).
+    { rewrite total_app. change (s :: l) with ([s] ++ l). rewrite total_app. lia. }
+    destruct (mx <=? T (cur ++ [s])).
+    + cbn [map sum_sizes fold_right]. fold (sum_sizes (map T (chunks slot slen mx l []))). rewrite IH.
+      unfold total at 2. cbn [total_from]. lia.
+    + rewrite IH. lia.
+Qed.
+
+Theorem dangling_offset_is_dropped mx l cur p :
+  T (cur ++ l) <= p -> remap (map T (chunks slot slen mx l cur)) 0 p = None.
+Proof. intros H. apply remap_none_iff. rewrite chunks_total. rewrite total_app in H. exact H. Qed.
+
+Theorem offset_inside_is_remapped mx l cur p :
+  p < T (cur ++ l) -> exists f lp, remap (map T (chunks slot slen mx l cur)) 0 p = Some (f, lp).
+Proof.
+  intros H. destruct (remap (map T (chunks slot slen mx l cur)) 0 p) as [[f lp]|] eqn:E; [eauto|].
+  apply remap_none_iff in E. rewrite chunks_total in E. rewrite total_app in H. lia.
+Qed.
+End Remap2.
+
+(* file number and local offset are recovered from the absolute offset the remapped entry stores (localizePrimaryPos) *)
+Lemma absolute_offset_decodes (mx f lp : N) : 0 < mx -> lp < mx ->
+  (f * mx + lp) / mx = f /\ (f * mx + lp) mod mx = lp.
+Proof.
+  intros Hm Hl. split.
+  - rewrite N.div_add_l by lia. rewrite N.div_small by lia. lia.
+  - rewrite N.add_comm, N.mod_add by lia. apply N.mod_small; lia.
+Qed.
+Print Assumptions dangling_offset_is_dropped.
+Print Assumptions offset_inside_is_remapped.
